@@ -33,8 +33,9 @@ type Profile struct {
 	Pty            int // percent using a pty
 	Cancel         int // percent of scenarios with a cancel/shutdown step
 	Delay          int
+	DelayNever     int // % of delayed containers whose delay is never released
 	Notifier       int
-	UserWG         int // percent of containers with WithWaitGroup
+	UserWG         int  // percent of containers with WithWaitGroup
 	Gets           int  // weight of get steps
 	PostTerm       bool // allow mutators after the terminal event
 	PostTermWait   bool // ... and Bar.Wait / getters on finished bars
@@ -52,6 +53,9 @@ type Profile struct {
 	ChurnW         int  // weight of the macro "finish a bar, two render cycles, add the next bar" (one leaves, one joins between two frames)
 	PrioExtreme    bool // priorities from the whole int range now and then
 	PrioOnFinished bool // priority changes also on bars that have finished
+	PrioMidRender  int  // % of priority changes issued while a frame renders
+	AddTick        int  // % of adds during which an option callback requests a frame
+	AddAfterCancel int  // % of cancelled programs that call Add right after the cancel
 	StaticTexts    bool // one text per decorator
 	RepeatText     int  // weight of the macro "same text written in consecutive frames"
 	Faults         int  // percent of scenarios with one filler/extender fault
@@ -230,6 +234,9 @@ func genSetup(t *rapid.T, prof *Profile) *engine.Scenario {
 		sc.Cfg.PtyCols = rapid.IntRange(40, 100).Draw(t, "ptycols")
 	}
 	sc.Cfg.Delay = pct(t, prof.Delay, "delay")
+	if sc.Cfg.Delay && prof.DelayNever > 0 {
+		sc.Cfg.DelayNever = pct(t, prof.DelayNever, "delaynever")
+	}
 	sc.Cfg.Notifier = pct(t, prof.Notifier, "notifier")
 	sc.Cfg.UserWG = pct(t, prof.UserWG, "userwg")
 	if sc.Cfg.Refresh == "manual" && pct(t, 15, "alsoauto") {
@@ -301,8 +308,11 @@ func genSteps(t *rapid.T, prof *Profile, sc *engine.Scenario) []engine.Step {
 					everLive[i] = true
 					continue
 				}
-				if st.Op == "tick" {
+				if st.Op == "tick" || st.Op == "add" && st.Flag {
 					ticksSinceTerm[i]++
+				}
+				if st.Op == "barwait" {
+					ticksSinceTerm[i] += 2 // Bar.Wait returns once the bar has been through its last frames
 				}
 				otherLive := false
 				for j, h := range gb {
@@ -337,7 +347,11 @@ func genSteps(t *rapid.T, prof *Profile, sc *engine.Scenario) []engine.Step {
 					excludedKnown++
 				}
 			}
-			steps = append(steps, engine.Step{Op: "add", Bar: nextAdd})
+			st := engine.Step{Op: "add", Bar: nextAdd}
+			if prof.AddTick > 0 && (sc.Cfg.Refresh == "manual" || sc.Cfg.Refresh == "autoinj") && pct(t, prof.AddTick, "addtick") {
+				st.Flag = true // a frame is requested from inside an option callback of this Add
+			}
+			steps = append(steps, st)
 			gb[nextAdd].added = true
 			gb[nextAdd].m = engine.NewMBar(sc.Bars[nextAdd].Total)
 			nextAdd++
@@ -366,6 +380,14 @@ func genSteps(t *rapid.T, prof *Profile, sc *engine.Scenario) []engine.Step {
 				op = "shutdown"
 			}
 			steps = append(steps, engine.Step{Op: op})
+			if prof.AddAfterCancel > 0 && pct(t, prof.AddAfterCancel, "addaftercancel") {
+				// Adds racing with the shutdown: refused, or accepted and aborted at once
+				for n := rapid.IntRange(1, 2).Draw(t, "naddaftercancel"); n > 0 && nextAdd < nb; n-- {
+					sc.Bars[nextAdd].QueueAfter = -1
+					steps = append(steps, engine.Step{Op: "add", Bar: nextAdd})
+					nextAdd++
+				}
+			}
 			break
 		}
 		// weights
@@ -482,7 +504,10 @@ func genSteps(t *rapid.T, prof *Profile, sc *engine.Scenario) []engine.Step {
 					if prof.PrioExtreme && pct(t, 15, "extremepriov") {
 						v = int64(rapid.SampledFrom(extremePrios).Draw(t, "xpriov"))
 					}
-					if rapid.Bool().Draw(t, "lazy?") {
+					if prof.PrioMidRender > 0 && (sc.Cfg.Refresh == "manual" || sc.Cfg.Refresh == "autoinj") && pct(t, prof.PrioMidRender, "priomid") {
+						// issued by a client goroutine while a frame is being rendered
+						steps = append(steps, engine.Step{Op: "tick", Bar: i, N: v, Text: rapid.SampledFrom([]string{"prio", "uprio", "uprio-lazy"}).Draw(t, "priomidkind")})
+					} else if rapid.Bool().Draw(t, "lazy?") {
 						steps = append(steps, engine.Step{Op: "uprio", Bar: i, N: v, Flag: rapid.Bool().Draw(t, "lazy")})
 					} else {
 						steps = append(steps, engine.Step{Op: "prio", Bar: i, N: v})
@@ -566,7 +591,7 @@ func genSteps(t *rapid.T, prof *Profile, sc *engine.Scenario) []engine.Step {
 				steps = append(steps, engine.Step{Op: "get", Bar: rapid.SampledFrom(any).Draw(t, "getbar")})
 			}})
 		}
-		if !released {
+		if !released && !sc.Cfg.DelayNever {
 			cs = append(cs, choice{2, func() { steps = append(steps, engine.Step{Op: "release"}); released = true }})
 		}
 		total := 0
@@ -606,4 +631,31 @@ func repairQueue(sc *engine.Scenario) (excluded int) {
 		}
 	}
 	return
+}
+
+// featureClasses names the generator features a scenario uses, for the
+// generator-health check of the driver (required classes must not be empty).
+func featureClasses(sc *engine.Scenario) []string {
+	var out []string
+	if sc.Cfg.Delay && sc.Cfg.DelayNever {
+		out = append(out, "delay-never-released")
+	}
+	seen := map[string]bool{}
+	cancelled := false
+	for _, st := range sc.Steps {
+		switch {
+		case st.Op == "tick" && st.Text != "":
+			seen["priority-change-mid-render"] = true
+		case st.Op == "add" && st.Flag && !cancelled:
+			seen["add-requests-frame"] = true
+		case st.Op == "add" && cancelled:
+			seen["add-after-cancel"] = true
+		case st.Op == "cancel" || st.Op == "shutdown":
+			cancelled = true
+		}
+	}
+	for k := range seen {
+		out = append(out, k)
+	}
+	return out
 }
